@@ -1,8 +1,668 @@
-//! C06 — not built yet.
+//! C06 — a dead or misbehaving connection fails calls promptly: no hang, no residue.
+//!
+//! Runtime monitor, fault enumeration. A remote-controlled FAKE server (raw TCP for `repe::Client`
+//! and `repe::AsyncClient`, tokio_tungstenite accept for `repe::WebSocketClient`; all frames built
+//! with oracle.rs) injects every fault of a table at a chosen protocol step while 0..16 calls are
+//! in flight, with and without per-call timeouts. Timeout-vs-response races are forced in both
+//! orders through the verif-hooks gates, cancellation aborts the calling task at each probe point.
+//! Oracle: bounded progress (15 s window + heartbeat), later calls fail, pending table empty at
+//! quiescence, unique tokens (a call only ever gets its own response), subscriber end-of-stream,
+//! no reader killed by a panic.
+
 use crate::common::*;
 
+#[cfg(not(feature = "net"))]
 pub fn run(args: &Args) -> Report {
-    let mut rep = Report::new(args, "c06-stub", "stub");
-    rep.inconclusive("check not implemented");
+    let mut rep = Report::new(args, "c06", "needs the net feature");
+    rep.inconclusive("built without the `net` feature");
     rep
+}
+
+#[cfg(feature = "net")]
+#[path = "c06_infra.rs"]
+mod infra;
+#[cfg(feature = "net")]
+#[path = "c06_gates.rs"]
+mod gates;
+
+#[cfg(feature = "net")]
+pub fn run(args: &Args) -> Report {
+    imp::run(args)
+}
+
+#[cfg(feature = "net")]
+pub(crate) mod imp {
+    use super::gates;
+    use super::infra::*;
+    use crate::common::*;
+    use crate::oracle::SpecHeader;
+    use serde_json::{Value, json};
+    use std::collections::{BTreeMap, BTreeSet};
+    use std::time::Duration;
+
+    // -------------------------------------------------------------- fault table
+
+    #[derive(Clone, Copy, Debug, PartialEq, Eq, Hash)]
+    pub enum CutAt {
+        B1,
+        B47,
+        B48,
+        MidQuery,
+        MidBody,
+        LastM1,
+    }
+    pub const CUTS: [CutAt; 6] = [CutAt::B1, CutAt::B47, CutAt::B48, CutAt::MidQuery, CutAt::MidBody, CutAt::LastM1];
+
+    #[derive(Clone, Copy, Debug, PartialEq, Eq, Hash)]
+    pub enum BadHdr {
+        Magic0,
+        MagicOff,
+        LenPlus1,
+        LenMinus1,
+        LenZero,
+        WrapQmaxB1,
+        Wrap2x63,
+        Huge62Body,
+        Huge63Body,
+        Huge62Query,
+        HugeMaxLen,
+    }
+    pub const BADS: [BadHdr; 11] = [
+        BadHdr::Magic0,
+        BadHdr::MagicOff,
+        BadHdr::LenPlus1,
+        BadHdr::LenMinus1,
+        BadHdr::LenZero,
+        BadHdr::WrapQmaxB1,
+        BadHdr::Wrap2x63,
+        BadHdr::Huge62Body,
+        BadHdr::Huge63Body,
+        BadHdr::Huge62Query,
+        BadHdr::HugeMaxLen,
+    ];
+
+    #[derive(Clone, Copy, Debug, PartialEq, Eq, Hash)]
+    pub enum Fault {
+        /// server never reads, closes while the requests sit unread in its receive queue
+        CloseBeforeRead,
+        RstBeforeRead,
+        /// server reads every request, then FIN
+        CloseAfterRead,
+        /// server reads every request, then SO_LINGER 0 close: RST
+        RstAfterRead,
+        /// TCP stream cut inside a response (raw clients: inside the REPE frame; WebSocket: inside the WebSocket frame)
+        Cut(CutAt),
+        /// a response whose 48-byte header is malformed; the connection is then HELD OPEN and silent
+        Bad(BadHdr),
+        // WebSocket only (connection held open after each of these)
+        WsText,
+        WsCloseFrame,
+        /// complete binary WebSocket message holding a truncated REPE frame
+        WsTrunc(CutAt),
+        WsTrailing,
+        WsEmpty,
+    }
+
+    impl Fault {
+        pub fn name(&self) -> String {
+            match self {
+                Fault::CloseBeforeRead => "close-before-read".into(),
+                Fault::RstBeforeRead => "rst-before-read".into(),
+                Fault::CloseAfterRead => "close-after-read".into(),
+                Fault::RstAfterRead => "rst-after-read".into(),
+                Fault::Cut(c) => format!("cut@{c:?}"),
+                Fault::Bad(b) => format!("bad-header:{b:?}"),
+                Fault::WsText => "ws-text-frame".into(),
+                Fault::WsCloseFrame => "ws-close-frame".into(),
+                Fault::WsTrunc(c) => format!("ws-truncated-payload@{c:?}"),
+                Fault::WsTrailing => "ws-trailing-byte".into(),
+                Fault::WsEmpty => "ws-empty-binary".into(),
+            }
+        }
+        pub fn before_read(&self) -> bool {
+            matches!(self, Fault::CloseBeforeRead | Fault::RstBeforeRead)
+        }
+    }
+
+    pub fn faults_for(kind: Kind) -> Vec<Fault> {
+        let mut v = vec![];
+        if kind != Kind::Ws {
+            v.push(Fault::CloseBeforeRead);
+            v.push(Fault::RstBeforeRead);
+        }
+        v.push(Fault::CloseAfterRead);
+        v.push(Fault::RstAfterRead);
+        v.extend(CUTS.iter().map(|c| Fault::Cut(*c)));
+        v.extend(BADS.iter().map(|b| Fault::Bad(*b)));
+        if kind == Kind::Ws {
+            v.push(Fault::WsText);
+            v.push(Fault::WsCloseFrame);
+            v.extend(CUTS.iter().map(|c| Fault::WsTrunc(*c)));
+            v.push(Fault::WsTrailing);
+            v.push(Fault::WsEmpty);
+        }
+        v
+    }
+
+    pub fn cut_offset(at: CutAt, frame: &[u8]) -> usize {
+        let h = SpecHeader::decode(frame);
+        let (q, b) = (h.query_length as usize, h.body_length as usize);
+        let off = match at {
+            CutAt::B1 => 1,
+            CutAt::B47 => 47,
+            CutAt::B48 => 48,
+            CutAt::MidQuery => 48 + (q / 2).max(1),
+            CutAt::MidBody => 48 + q + (b / 2).max(1),
+            CutAt::LastM1 => frame.len() - 1,
+        };
+        off.min(frame.len() - 1)
+    }
+
+    pub fn bad_frame(kind: BadHdr, frame: &[u8]) -> Vec<u8> {
+        let mut h = SpecHeader::decode(frame);
+        let (q, b) = (h.query_length, h.body_length);
+        match kind {
+            BadHdr::Magic0 => h.spec = 0,
+            BadHdr::MagicOff => h.spec = 0x1508,
+            BadHdr::LenPlus1 => h.length += 1,
+            BadHdr::LenMinus1 => h.length -= 1,
+            BadHdr::LenZero => h.length = 0,
+            BadHdr::WrapQmaxB1 => {
+                h.query_length = u64::MAX;
+                h.body_length = 1;
+                h.length = 48;
+            }
+            BadHdr::Wrap2x63 => {
+                h.query_length = 1 << 63;
+                h.body_length = 1 << 63;
+                h.length = 48;
+            }
+            BadHdr::Huge62Body => {
+                h.body_length = 1 << 62;
+                h.length = 48 + q + (1 << 62);
+            }
+            BadHdr::Huge63Body => {
+                h.body_length = 1 << 63;
+                h.length = 48 + q + (1 << 63);
+            }
+            BadHdr::Huge62Query => {
+                h.query_length = 1 << 62;
+                h.length = 48 + (1 << 62) + b;
+            }
+            BadHdr::HugeMaxLen => {
+                h.length = u64::MAX;
+                h.body_length = u64::MAX - 48 - q;
+            }
+        }
+        let mut out = h.encode().to_vec();
+        out.extend_from_slice(&frame[48..]);
+        out
+    }
+
+    #[derive(Clone, Copy, Debug, PartialEq, Eq, Hash)]
+    pub enum TMode {
+        None,
+        All,
+        Mixed,
+    }
+    impl TMode {
+        pub fn name(self) -> &'static str {
+            match self {
+                TMode::None => "no-timeout",
+                TMode::All => "per-call-timeout",
+                TMode::Mixed => "mixed",
+            }
+        }
+        pub fn timeout_for(self, i: usize) -> Option<Duration> {
+            // far beyond the 15 s window: an error must come from the fault, not from the timeout
+            match self {
+                TMode::None => None,
+                TMode::All => Some(Duration::from_secs(40)),
+                TMode::Mixed => if i % 2 == 0 { Some(Duration::from_secs(40)) } else { None },
+            }
+        }
+    }
+
+    // -------------------------------------------------------------- evidence
+
+    #[derive(Default)]
+    pub struct Stats {
+        /// kind -> fault -> (in-flight counts, timeout modes) executed
+        pub cells: BTreeMap<&'static str, BTreeMap<String, (BTreeSet<usize>, BTreeSet<&'static str>)>>,
+        pub cell_count: u64,
+        pub err_kinds: BTreeMap<String, BTreeSet<String>>,
+        pub sched: BTreeMap<String, u64>,
+        /// scenarios that took more than 3 s (diagnostic: silent waits)
+        pub slow: Vec<String>,
+    }
+
+    impl Stats {
+        pub fn timed(&mut self, what: String, t: std::time::Instant) {
+            let d = t.elapsed();
+            if d > Duration::from_secs(3) && self.slow.len() < 20 {
+                self.slow.push(format!("{what}: {:.1}s; trace: {}", d.as_secs_f64(), ps_trace()));
+            }
+        }
+        pub fn bump(&mut self, k: impl Into<String>) {
+            *self.sched.entry(k.into()).or_insert(0) += 1;
+        }
+    }
+
+    // -------------------------------------------------------------- shared verdict helpers
+
+    /// Unreturned calls after the bounded-progress window.
+    pub fn report_hang(rep: &mut Report, env: &mut Env, class: &str, kind: Kind, ctx: &str, missing: &[usize], calls: &Calls, replay: &Value) {
+        env.hangs_left -= 1;
+        let gap = env.hb.max_gap_ms();
+        let who: Vec<String> = missing.iter().map(|i| format!("call#{i}(token {}, timeout {:?})", calls.v[*i].token, calls.v[*i].timeout)).collect();
+        if gap > 1000 {
+            rep.inconclusive(format!("{class} on {} / {ctx} observed, but the heartbeat saw a {gap} ms scheduling stall", kind.name()));
+            return;
+        }
+        let panic = take_last_panic();
+        rep.violation(
+            format!("C06:{class}:{}:{ctx}", kind.name()),
+            format!(
+                "{} call(s) had not returned {} s after the step `{ctx}` on {} (heartbeat max gap {gap} ms): {}; last panic: {:?}; probe trace: {}",
+                missing.len(),
+                WINDOW.as_secs(),
+                kind.name(),
+                who.join(", "),
+                panic,
+                ps_trace()
+            ),
+            replay.clone(),
+        );
+    }
+
+    /// Judge returned calls: a result is Err, or Ok carrying the caller's own token for which the
+    /// server really sent a complete response. `must_ok`: the connection is healthy, Err is a violation.
+    pub fn judge(rep: &mut Report, st: &mut Stats, calls: &Calls, idxs: &[usize], srv: &Srv, kind: Kind, ctx: &str, must_ok: bool, replay: &Value) {
+        for &i in idxs {
+            let c = &calls.v[i];
+            match &c.res {
+                None => {}
+                Some(CallRes::Ok(v)) => {
+                    let id = srv.reqs.iter().find(|r| r.token == c.token).map(|r| r.header.id);
+                    if v["t"].as_u64() != Some(c.token) {
+                        rep.violation(
+                            format!("C06:wrong-token:{}:{ctx}", kind.name()),
+                            format!("call#{i} sent token {} and was handed a response carrying {} ({ctx}); trace: {}", c.token, v["t"], ps_trace()),
+                            replay.clone(),
+                        );
+                    } else if id.map(|id| !srv.sent_full.contains(&id)).unwrap_or(true) {
+                        rep.violation(
+                            format!("C06:phantom-response:{}:{ctx}", kind.name()),
+                            format!("call#{i} (token {}) returned Ok although the fake server never sent a complete response for it", c.token),
+                            replay.clone(),
+                        );
+                    } else {
+                        rep.count("calls_returned_own_token", 1);
+                    }
+                }
+                Some(CallRes::Err(e)) => {
+                    let k = e.split(": ").next().unwrap_or("").to_string();
+                    st.err_kinds.entry(format!("{}|{}", kind.name(), ctx)).or_default().insert(k);
+                    if must_ok {
+                        rep.violation(
+                            format!("C06:healthy-call-failed:{}:{ctx}", kind.name()),
+                            format!("call#{i} (token {}) on a still-healthy connection returned Err({e}) although the server answered it; trace: {}", c.token, ps_trace()),
+                            replay.clone(),
+                        );
+                    } else {
+                        rep.count("calls_returned_err", 1);
+                    }
+                }
+                Some(CallRes::Panic(p)) => rep.violation(
+                    format!("C06:panic:{}:{ctx}:{}", kind.name(), panic_site(p)),
+                    format!("call#{i} panicked inside the client: {p}"),
+                    replay.clone(),
+                ),
+            }
+        }
+    }
+
+    /// A panic recorded by the hook during the scenario (reader thread / task died).
+    pub fn check_panic(rep: &mut Report, kind: Kind, ctx: &str, replay: &Value) {
+        if let Some(p) = take_last_panic() {
+            if p.contains("c06") || p.contains("harness/src") {
+                rep.inconclusive(format!("harness panic during {ctx}: {p}"));
+            } else {
+                rep.violation(
+                    format!("C06:panic:{}:{ctx}:{}", kind.name(), panic_site(&p)),
+                    format!("a thread/task panicked during `{ctx}` on {}: {p}", kind.name()),
+                    replay.clone(),
+                );
+            }
+        }
+    }
+
+    pub fn check_residue(rep: &mut Report, cli: &Cli, want: usize, kind: Kind, ctx: &str, replay: &Value) {
+        // quiescence: every call has returned; the drain/removal happens before a call can return,
+        // so no settling delay is needed for the blocking client; async drops run before the join.
+        let got = cli.pending_len();
+        rep.count("pending_len_checks", 1);
+        if got != want {
+            rep.violation(
+                format!("C06:residue:{}:{ctx}", kind.name()),
+                format!("verif_pending_len() = {got}, expected {want} at quiescence after `{ctx}`; trace: {}", ps_trace()),
+                replay.clone(),
+            );
+        }
+    }
+
+    // -------------------------------------------------------------- one cell of the fault matrix
+
+    #[derive(Clone, Copy, Debug)]
+    pub struct Cell {
+        pub kind: Kind,
+        pub fault: Fault,
+        pub n: usize,
+        pub tmode: TMode,
+    }
+
+    fn run_cell(env: &mut Env, rep: &mut Report, st: &mut Stats, cell: &Cell, rng: &mut Rng, case: u64) {
+        let Cell { kind, fault, n, tmode } = *cell;
+        let fname = fault.name();
+        let ws = kind == Kind::Ws;
+        let replay = json!({"scenario": "fault", "client": kind.name(), "fault": fname, "in_flight": n, "timeouts": tmode.name(), "seed": rep.seed, "case": case});
+        env.hb_reset();
+        ps_reset();
+        let _ = take_last_panic();
+        let (cli, mut srv) = match env.connect(kind, !fault.before_read()) {
+            Ok(x) => x,
+            Err(e) => {
+                rep.inconclusive(format!("{} / {fname}: {e}", kind.name()));
+                return;
+            }
+        };
+        rep.eval();
+        rep.distinct(&(kind, fault, n, tmode));
+        let e = st.cells.entry(kind.name()).or_default().entry(fname.clone()).or_default();
+        e.0.insert(n);
+        e.1.insert(tmode.name());
+        st.cell_count += 1;
+
+        // WebSocket: a notify subscriber that must see end-of-stream after the failure
+        let mut sub_rx = None;
+        if let Cli::Ws(c) = &cli {
+            match c.subscribe_notifies() {
+                Ok(mut rx) => {
+                    let (tx, r) = std::sync::mpsc::channel::<u64>();
+                    env.rt_cli.spawn(async move {
+                        let mut seen = 0u64;
+                        while let Some(_m) = rx.recv().await {
+                            seen += 1;
+                        }
+                        let _ = tx.send(seen);
+                    });
+                    sub_rx = Some(r);
+                }
+                Err(_) => rep.inconclusive("subscribe_notifies refused on a fresh client"),
+            }
+        }
+
+        let mut calls = Calls::new();
+        for i in 0..n {
+            let tok = env.token();
+            let pad = rng.usize_below(40);
+            calls.launch(env, &cli, tok, pad, tmode.timeout_for(i));
+        }
+        rep.count("calls_in_flight_at_fault", n as u64);
+
+        // reach the protocol step
+        if fault.before_read() {
+            let p = kind.pt("written").unwrap_or("");
+            if !ps_wait_count(p, n, STEP_MAX) {
+                rep.inconclusive(format!("{} / {fname}: only some of {n} requests were written within {STEP_MAX:?}", kind.name()));
+            }
+        } else if !srv.wait_reqs(n, STEP_MAX) {
+            rep.inconclusive(format!("{} / {fname}: fake server saw {} of {n} requests ({:?})", kind.name(), srv.reqs.len(), srv.gone));
+            return;
+        }
+        if ws && rng.coin() {
+            // a pushed notify before the fault: the subscription is live
+            let mut r = Req::fabricated(0);
+            r.header.notify = 1;
+            let mut f = r.response();
+            f[11] = 1;
+            srv.send(Cmd::WsBinary(f));
+            rep.count("ws_notifies_pushed_before_fault", 1);
+        }
+        // answer some requests completely before the fault (their callers may legitimately win)
+        let answered = if fault.before_read() || n == 0 { 0 } else { rng.usize_below(n) };
+        let reqs = srv.reqs.clone();
+        for r in reqs.iter().take(answered) {
+            srv.answer(r, ws);
+        }
+        rep.count("responses_sent_before_fault", answered as u64);
+        let victim = reqs.get(answered).cloned().unwrap_or_else(|| Req::fabricated(n as u64 + 1));
+        let resp = victim.response();
+
+        // inject
+        match fault {
+            Fault::CloseBeforeRead | Fault::CloseAfterRead => srv.send(Cmd::Close),
+            Fault::RstBeforeRead | Fault::RstAfterRead => srv.send(Cmd::Rst),
+            Fault::Cut(at) => {
+                if ws {
+                    let (f, hdr) = ws_binary_frame(&resp);
+                    let off = if at == CutAt::B1 { 1 } else { hdr + cut_offset(at, &resp) };
+                    srv.send(Cmd::Raw(f[..off].to_vec()));
+                } else {
+                    let off = cut_offset(at, &resp);
+                    // sometimes in two writes
+                    if off > 2 && rng.coin() {
+                        let k = 1 + rng.usize_below(off - 1);
+                        srv.send(Cmd::Raw(resp[..k].to_vec()));
+                        srv.send(Cmd::Raw(resp[k..off].to_vec()));
+                    } else {
+                        srv.send(Cmd::Raw(resp[..off].to_vec()));
+                    }
+                }
+                if rng.chance(1, 4) {
+                    srv.send(Cmd::Rst)
+                } else {
+                    srv.send(Cmd::Close)
+                }
+            }
+            Fault::Bad(b) => {
+                let f = bad_frame(b, &resp);
+                if ws {
+                    srv.send(Cmd::WsBinary(f));
+                } else if rng.coin() {
+                    let k = 1 + rng.usize_below(f.len() - 1);
+                    srv.send(Cmd::Raw(f[..k].to_vec()));
+                    srv.send(Cmd::Raw(f[k..].to_vec()));
+                } else {
+                    srv.send(Cmd::Raw(f));
+                }
+            }
+            Fault::WsText => srv.send(Cmd::WsText("{\"not\":\"binary\"}".into())),
+            Fault::WsCloseFrame => srv.send(Cmd::WsCloseFrame),
+            Fault::WsTrunc(at) => srv.send(Cmd::WsBinary(resp[..cut_offset(at, &resp)].to_vec())),
+            Fault::WsTrailing => {
+                let mut f = resp.clone();
+                f.push(0);
+                srv.send(Cmd::WsBinary(f));
+            }
+            Fault::WsEmpty => srv.send(Cmd::WsBinary(vec![])),
+        }
+        rep.count("faults_injected", 1);
+
+        // every in-flight call returns within the window
+        let all = calls.all();
+        let missing = calls.wait(&all, WINDOW);
+        srv.poll();
+        if !missing.is_empty() {
+            report_hang(rep, env, "hang", kind, &fname, &missing, &calls, &replay);
+        }
+        judge(rep, st, &calls, &all, &srv, kind, &fname, false, &replay);
+        let won = all.iter().filter(|i| matches!(calls.v[**i].res, Some(CallRes::Ok(_)))).count();
+        rep.count("answered_calls_that_won", won as u64);
+
+        // every later call fails promptly
+        if missing.is_empty() {
+            let (t1, t2) = (env.token(), env.token());
+            let l1 = calls.launch(env, &cli, t1, 3, None);
+            let l2 = calls.launch(env, &cli, t2, 3, Some(Duration::from_secs(40)));
+            let later = [l1, l2];
+            let miss2 = calls.wait(&later, WINDOW);
+            if !miss2.is_empty() {
+                report_hang(rep, env, "later-call-hang", kind, &fname, &miss2, &calls, &replay);
+            }
+            for &i in &later {
+                match &calls.v[i].res {
+                    Some(CallRes::Ok(v)) => rep.violation(
+                        format!("C06:later-call-succeeded:{}:{fname}", kind.name()),
+                        format!("a call issued after `{fname}` returned Ok({v}) from a server that answers nothing any more"),
+                        replay.clone(),
+                    ),
+                    Some(CallRes::Err(e)) => {
+                        rep.count("later_calls_returned_err", 1);
+                        st.err_kinds.entry(format!("{}|later|{}", kind.name(), fname)).or_default().insert(e.split(": ").next().unwrap_or("").to_string());
+                    }
+                    Some(CallRes::Panic(p)) => rep.violation(format!("C06:panic:{}:{fname}:{}", kind.name(), panic_site(p)), format!("later call panicked: {p}"), replay.clone()),
+                    None => {}
+                }
+            }
+            if miss2.is_empty() {
+                check_residue(rep, &cli, 0, kind, &fname, &replay);
+            }
+        }
+
+        // subscriber end-of-stream
+        if let Some(r) = sub_rx {
+            match r.recv_timeout(WINDOW) {
+                Ok(seen) => {
+                    rep.count("subscriber_saw_end_of_stream", 1);
+                    rep.count("subscriber_notifies_seen", seen);
+                }
+                Err(_) => {
+                    if env.hb.max_gap_ms() > 1000 {
+                        rep.inconclusive("subscriber end-of-stream not seen, but the machine stalled");
+                    } else {
+                        env.hangs_left -= 1;
+                        rep.violation(
+                            format!("C06:subscriber-no-eos:{}:{fname}", kind.name()),
+                            format!("the subscribe_notifies receiver did not see end-of-stream within {} s after `{fname}`", WINDOW.as_secs()),
+                            replay.clone(),
+                        );
+                    }
+                }
+            }
+        }
+        check_panic(rep, kind, &fname, &replay);
+        if st.cell_count <= 3 {
+            let res: Vec<String> = calls.v.iter().map(|c| format!("{:?}", c.res)).collect();
+            rep.sample(json!({"cell": replay, "answered_before_fault": answered, "results": res}));
+        }
+        drop(srv);
+        drop(cli);
+    }
+
+    // -------------------------------------------------------------- run
+
+    pub fn run(args: &Args) -> Report {
+        let mut rep = Report::new(
+            args,
+            "c06-fault-enumeration",
+            "table-driven: (client kind) x (fault: close/RST before/after reading the request, stream cut inside a response at \
+             {1,47,48,mid-query,mid-body,last-1}, 11 malformed-header kinds incl. wrapping sums and >=2^62 lengths with the \
+             connection held open, WebSocket text/close/truncated/trailing/empty frames) x (0..16 calls in flight) x (timeout mode); \
+             plus gate-forced timeout-vs-response orders, task abort at every probe point, and faults landing while a caller \
+             holds the writer lock. distinct = executed (kind, fault, in-flight, timeout-mode) cells and (kind, order|trigger, \
+             bystanders) schedules",
+        );
+        let stage = args.stage.as_str();
+        let thorough = args.thorough();
+        let mut env = match Env::new(if thorough { 5 } else { 3 }) {
+            Ok(e) => e,
+            Err(e) => {
+                rep.inconclusive(format!("harness setup failed: {e}"));
+                return rep;
+            }
+        };
+        let mut st = Stats::default();
+        let mut rng = Rng::new(args.seed ^ 0xC06);
+        quiet_panics(true);
+        probes_install();
+        let t0 = std::time::Instant::now();
+        // wall caps (normal runs stay far below: quick ~25 s, thorough ~5.5 min)
+        let fault_cap = Duration::from_secs(if thorough { 250 } else { 100 });
+        env.deadline = t0 + Duration::from_secs(if thorough { 420 } else { 160 });
+
+        if matches!(stage, "main" | "faults") {
+            let ns: Vec<usize> = if thorough { (0..=16).collect() } else { vec![0, 1, 2, 5, 16] };
+            let tmodes: Vec<TMode> = if thorough { vec![TMode::None, TMode::All, TMode::Mixed] } else { vec![TMode::None, TMode::All] };
+            let rounds = args.budget(1, 3);
+            let (mut skipped_first, mut skipped_later) = (0u64, 0u64);
+            let mut case = 0u64;
+            for round in 0..rounds {
+                for kind in KINDS {
+                    for fault in faults_for(kind) {
+                        for &n in &ns {
+                            for &tmode in &tmodes {
+                                case += 1;
+                                // round 0 is the complete table; later rounds repeat it with other random choices
+                                if env.hangs_left <= 0 || (round > 0 && t0.elapsed() > fault_cap) || env.stop() {
+                                    if round == 0 { skipped_first += 1 } else { skipped_later += 1 }
+                                    continue;
+                                }
+                                let mut r = rng.fork(case ^ (round << 32));
+                                let ts = std::time::Instant::now();
+                                run_cell(&mut env, &mut rep, &mut st, &Cell { kind, fault, n, tmode }, &mut r, case);
+                                st.timed(format!("fault {} {} n={n} {}", kind.name(), fault.name(), tmode.name()), ts);
+                            }
+                        }
+                    }
+                }
+            }
+            rep.set("fault_table_rounds_requested", json!(rounds));
+            if skipped_later > 0 {
+                rep.count("fault_cells_of_repeat_rounds_not_run_wall_cap", skipped_later);
+            }
+            if skipped_first > 0 {
+                rep.count("fault_cells_of_the_table_not_run", skipped_first);
+                if rep.violations.is_empty() {
+                    rep.inconclusive(format!("{skipped_first} cells of the fault table were not executed (wall cap)"));
+                }
+            }
+        }
+        if matches!(stage, "main" | "races") && !env.stop() {
+            gates::run_races(&mut env, &mut rep, &mut st, &mut rng, args);
+        }
+        if matches!(stage, "main" | "cancel") && !env.stop() {
+            gates::run_cancels(&mut env, &mut rep, &mut st, &mut rng, args);
+        }
+        if matches!(stage, "main" | "held") && !env.stop() {
+            gates::run_held(&mut env, &mut rep, &mut st, &mut rng, args);
+        }
+        probes_remove();
+        quiet_panics(false);
+
+        // evidence
+        let mut table = serde_json::Map::new();
+        for (k, m) in &st.cells {
+            let mut fm = serde_json::Map::new();
+            for (f, (ns, tm)) in m {
+                fm.insert(f.clone(), json!({"in_flight": ns.iter().collect::<Vec<_>>(), "timeout_modes": tm.iter().collect::<Vec<_>>()}));
+            }
+            table.insert(k.to_string(), Value::Object(fm));
+        }
+        rep.set("fault_cells_executed", json!(st.cell_count));
+        rep.set("fault_cell_table", Value::Object(table));
+        rep.set("schedules_executed", json!(st.sched));
+        rep.set("slow_scenarios", json!(st.slow));
+        rep.set("error_kinds_observed", json!(st.err_kinds.iter().map(|(k, v)| (k.clone(), v.iter().cloned().collect::<Vec<_>>())).collect::<BTreeMap<_, _>>()));
+        rep.set("probe_hits", json!(ps_hits()));
+        let (parks, gate_to) = ps_gate_stats();
+        rep.set("gate_parks", json!(parks));
+        rep.set("gate_timeouts", json!(gate_to));
+        env.hb_reset();
+        rep.set("heartbeat_max_gap_ms", json!(env.max_gap_all));
+        if rep.evaluations == 0 {
+            rep.inconclusive("no scenario executed");
+        }
+        rep
+    }
 }
